@@ -91,7 +91,12 @@ def printer_model(ctx, prog):
         raise KeyError("top-level match of format_with_precedence")
     t = f.blocks[sw]["term"]
     vs = tables.enum_variants(prog, "msi", AST)
-    prec_tab = tables.enum_table(prog, prog.fn("msi::internal::expr::BinOp::precedence"), BINOP)
+    prec_tab = {}
+    for g in prog.fns.values():
+        if g.crate == "msi" and g.kind == "AssocFn" and g.parent in (BINOP, UNOP) and g.locals[0] == "i32" and g.argc == 1:
+            tab = tables.enum_table(prog, g, g.parent)
+            if tab:
+                prec_tab[g.path] = tab
     model = {}
     for v, tgt in t["cases"]:
         name = vs.get(v)
@@ -129,8 +134,9 @@ def prec_value(expr, prec_tab, op):
     m = re.fullmatch(r"c:(-?\d+)", e)
     if m:
         return int(m.group(1))
-    if e.startswith("internal::expr::BinOp::precedence("):
-        d = prec_tab.get(op) if op else None
+    m = re.match(r"(?:call@\d+:)?(internal::expr::(?:BinOp|UnOp)::\w+)", e)
+    if m:
+        d = (prec_tab.get(m.group(1)) or {}).get(op) if op else None
         return d[1] if d and d[0] == "int" else None
     return None
 
@@ -278,7 +284,10 @@ def run_c19(ctx):
     names = list(bin_vs.values())
     for a in names:
         for b in names:
-            pa, pb = prec_tab[a][1], prec_tab[b][1]
+            pt = prec_tab.get("internal::expr::BinOp::precedence") or {}
+            if not (pt.get(a) and pt.get(b)):
+                continue
+            pa, pb = pt[a][1], pt[b][1]
             la, lb = glevel[a][0], glevel[b][0]
             if (la < lb) != (pa < pb) or (la == lb) != (pa == pb):
                 ctx.violation("PREC", "precedence(%s) vs precedence(%s)" % (a, b),
